@@ -69,6 +69,15 @@ func (g *gen) leaf(keyOnly bool) *ast {
 		}
 	case "enum_int", "enum_string":
 		a.Values, a.Named = g.values(), g.r.Intn(2) == 0
+		// one in five: values 65.. ("A"..), a string enum spelling them as one-character strings
+		if g.r.Intn(5) == 0 {
+			for i := range a.Values {
+				a.Values[i] += 64
+			}
+			if k == "enum_string" {
+				a.Spell = []string{"rune", "rune", "mixed"}[g.r.Intn(3)]
+			}
+		}
 	}
 	return a
 }
@@ -183,7 +192,99 @@ func (g *gen) object(depth int, ids []string, id string) *ast {
 	for i := 0; i < n; i++ {
 		a.Props = append(a.Props, g.prop(propNames[perm[i]], g.schema(depth-1, ids)))
 	}
+	// rules between fields: two properties conflict / one is required if (not) the other is set
+	if len(a.Props) >= 2 && g.r.Intn(4) == 0 {
+		i, j := 0, 1
+		if g.r.Intn(2) == 0 {
+			i, j = 1, 0
+		}
+		pi, pj := &a.Props[i], &a.Props[j]
+		switch g.r.Intn(3) {
+		case 0:
+			pi.Conflicts, pj.Conflicts = []string{pj.Name}, []string{pi.Name}
+		case 1:
+			pi.RequiredIf = []string{pj.Name}
+		default:
+			pi.RequiredIfNot = []string{pj.Name}
+		}
+	}
 	return a
+}
+
+func without(l []string, name string) []string {
+	out := []string{}
+	for _, x := range l {
+		if x != name {
+			out = append(out, x)
+		}
+	}
+	return out
+}
+
+func has(l []string, name string) bool {
+	for _, x := range l {
+		if x == name {
+			return true
+		}
+	}
+	return false
+}
+
+// stripRules removes a (removed) property's name from the rules of the others
+func stripRules(a *ast, name string) {
+	for i := range a.Props {
+		p := &a.Props[i]
+		p.Conflicts, p.RequiredIf, p.RequiredIfNot = without(p.Conflicts, name), without(p.RequiredIf, name), without(p.RequiredIfNot, name)
+	}
+}
+
+// setInline makes every member of the one-of declare the discriminator field with the discriminator's
+// kind; false if a member is not a literal object (a reference's target is not the one-of's to change)
+func setInline(a *ast) bool {
+	kind := "string"
+	if a.Disc == "int" {
+		kind = "int"
+	}
+	for _, m := range a.Members {
+		if m.Obj.Kind != "object" {
+			return false
+		}
+	}
+	for _, m := range a.Members {
+		o := m.Obj
+		found := false
+		for i := range o.Props {
+			if o.Props[i].Name == a.Field {
+				o.Props[i].Type = &ast{Kind: kind, Min: &opt{}, Max: &opt{}}
+				o.Props[i].HasDefault = false
+				found = true
+			}
+		}
+		if !found {
+			o.Props = append(o.Props, prop{Name: a.Field, Required: true, Type: &ast{Kind: kind, Min: &opt{}, Max: &opt{}}})
+		}
+	}
+	a.Inline = true
+	return true
+}
+
+// unsetInline removes the discriminator field from the members
+func unsetInline(a *ast) {
+	for _, m := range a.Members {
+		if m.Obj.Kind != "object" {
+			continue
+		}
+		o := m.Obj
+		ps := []prop{}
+		for _, p := range o.Props {
+			if p.Name != a.Field {
+				ps = append(ps, p)
+			}
+		}
+		o.Props = ps
+		stripRules(o, a.Field)
+	}
+	a.Inline = false
 }
 
 func (g *gen) oneof(depth int, ids []string) *ast {
@@ -201,6 +302,9 @@ func (g *gen) oneof(depth int, ids []string) *ast {
 			o = g.object(depth-1, ids, objectIDs[g.r.Intn(len(objectIDs))])
 		}
 		a.Members = append(a.Members, member{Key: int64(perm[i] + 1), Obj: o})
+	}
+	if g.r.Intn(3) == 0 {
+		setInline(a)
 	}
 	return a
 }
@@ -277,6 +381,19 @@ func wf(a *ast, table []*ast) bool {
 			}
 			seen[v] = true
 		}
+		if a.Kind == "enum_int" && a.spell() != "token" {
+			return false
+		}
+		if sp := a.spell(); sp != "token" {
+			if sp != "rune" && sp != "mixed" {
+				return false
+			}
+			for _, v := range a.Values {
+				if v < 33 || v > 126 {
+					return false
+				}
+			}
+		}
 		return len(a.Values) > 0
 	case "list":
 		return boundsOK(a) && wf(a.Items, table) && (a.impl() == "plain" || a.impl() == "typed" && typedListOK(a))
@@ -288,6 +405,17 @@ func wf(a *ast, table []*ast) bool {
 		for _, p := range a.Props {
 			if seen[p.Name] || !wf(p.Type, table) || (p.HasDefault && !defaultKinds[p.Type.Kind]) {
 				return false
+			}
+			for _, l := range [][]string{p.Conflicts, p.RequiredIf, p.RequiredIfNot} {
+				for _, n := range l {
+					declared := false
+					for _, q := range a.Props {
+						declared = declared || q.Name == n
+					}
+					if n == p.Name || !declared {
+						return false
+					}
+				}
 			}
 			seen[p.Name] = true
 		}
@@ -336,10 +464,21 @@ func wf(a *ast, table []*ast) bool {
 			if !wf(m.Obj, table) {
 				return false
 			}
+			declares := false
+			want := "string"
+			if a.Disc == "int" {
+				want = "int"
+			}
 			for _, p := range denote(m.Obj, table).Props {
 				if p.Name == a.Field {
-					return false
+					declares = true
+					if p.Type.Kind != want {
+						return false
+					}
 				}
+			}
+			if declares != a.Inline {
+				return false
 			}
 		}
 		return true
@@ -488,7 +627,20 @@ func (g *gen) mutate(s site) string {
 		*which = &opt{Some: true, V: int64(g.r.Intn(12))}
 		return name + " set"
 	case "enum_int", "enum_string":
-		switch g.r.Intn(3) {
+		switch g.r.Intn(4) {
+		case 3:
+			// the other enum kind over the same numbers, the string enum spelling them as runes
+			for _, v := range a.Values {
+				if v < 33 || v > 126 {
+					return ""
+				}
+			}
+			if a.Kind == "enum_int" {
+				a.Kind, a.Spell = "enum_string", []string{"rune", "mixed"}[g.r.Intn(2)]
+			} else {
+				a.Kind, a.Spell = "enum_int", ""
+			}
+			return "enum kind, same numbers"
 		case 0:
 			a.Named = !a.Named
 			return "enum named"
@@ -513,7 +665,19 @@ func (g *gen) mutate(s site) string {
 		}
 		return ""
 	case "object":
-		switch g.r.Intn(10) {
+		switch g.r.Intn(11) {
+		case 10:
+			if len(a.Props) >= 2 {
+				perm := g.r.Perm(len(a.Props))
+				pi, pj := &a.Props[perm[0]], &a.Props[perm[1]]
+				if has(pi.Conflicts, pj.Name) {
+					pi.Conflicts, pj.Conflicts = without(pi.Conflicts, pj.Name), without(pj.Conflicts, pi.Name)
+				} else {
+					pi.Conflicts, pj.Conflicts = append(without(pi.Conflicts, pj.Name), pj.Name), append(without(pj.Conflicts, pi.Name), pi.Name)
+				}
+				return "property conflicts"
+			}
+			return ""
 		case 9:
 			switch {
 			case a.impl() != "plain":
@@ -548,7 +712,9 @@ func (g *gen) mutate(s site) string {
 		case 2:
 			if len(a.Props) > 0 {
 				i := g.r.Intn(len(a.Props))
+				gone := a.Props[i].Name
 				a.Props = append(append([]prop{}, a.Props[:i]...), a.Props[i+1:]...)
+				stripRules(a, gone)
 				return "property removed"
 			}
 			return ""
@@ -570,7 +736,9 @@ func (g *gen) mutate(s site) string {
 			if len(a.Props) > 0 {
 				i := g.r.Intn(len(a.Props))
 				if a.Props[i].Required && (a.Props[i].HasDefault || a.Props[i].Disabled) {
+					gone := a.Props[i].Name
 					a.Props = append(append([]prop{}, a.Props[:i]...), a.Props[i+1:]...)
+					stripRules(a, gone)
 					return "flagged required property removed"
 				}
 			}
@@ -600,12 +768,15 @@ func (g *gen) mutate(s site) string {
 			return ""
 		}
 	case "oneof":
-		switch g.r.Intn(4) {
+		switch g.r.Intn(5) {
 		case 0:
 			if a.Disc == "int" {
 				a.Disc = "string"
 			} else {
 				a.Disc = "int"
+			}
+			if a.Inline && !setInline(a) {
+				return ""
 			}
 			return "discriminator kind"
 		case 1:
@@ -613,7 +784,19 @@ func (g *gen) mutate(s site) string {
 			for a.Field == old {
 				a.Field = fieldNames[g.r.Intn(len(fieldNames))]
 			}
+			// an inlining one-of: the members declare the new field too and keep the old one - they stay
+			// pairwise compatible with the original's, only the discriminator's name differs
+			if a.Inline && !setInline(a) {
+				return ""
+			}
 			return "discriminator field"
+		case 4:
+			if a.Inline {
+				unsetInline(a)
+			} else if !setInline(a) {
+				return ""
+			}
+			return "discriminator inlined"
 		case 2:
 			if len(a.Members) > 1 {
 				i := g.r.Intn(len(a.Members))
@@ -629,6 +812,9 @@ func (g *gen) mutate(s site) string {
 				}
 				if !has {
 					a.Members = append(a.Members, member{Key: k, Obj: g.object(2, tableIDs, objectIDs[g.r.Intn(len(objectIDs))])})
+					if a.Inline {
+						setInline(a)
+					}
 					return "member added"
 				}
 			}
